@@ -21,6 +21,7 @@
  R5 NLI spreading : between the per-cut sums and add_nli only sign-preserving operations (numpy.interp clamps; no extrapolation).
  R6 own arrays    : the constructor copies (fancy index) and permutes every per-channel array: in-place share updates cannot alias.
  Rn arg roles     : a variable named like a parameter of the callee is handed to that parameter (no exchanged roles).
+ R7 arrays private : no shallow copy of a spectrum, no element-wise patch of a share array (shared with C01).
 """
 import ast
 
@@ -395,6 +396,15 @@ def rn_arg_roles(ctx):
     ctx.check('Rn.arg-roles', 'argument / parameter name scan', True, 'C02|arg-roles-scan', '', f'{n} argument(s) named like another parameter judged')
 
 
+
+def r7_arrays_private(ctx):
+    """R7: a spectrum is never shallow-copied and its share arrays are never patched element-wise (rule shared with C01): a loss or
+    gain applied to a copy must not reach the original, and no carrier may have a share rewritten on its own"""
+    from .c01 import r9_no_shallow_copy_or_patch as _r
+    from .common import proxy
+    _r(proxy(ctx, 'R7'))
+
+
 from ..memo import rule_for as _memo_rule
 
 RULES_MEMO = ('Rm.memo', _memo_rule('C02', 'an element would apply noise computed for another spectrum or configuration'))
@@ -404,4 +414,4 @@ from ..presence import rule_for as _presence_rule
 
 RULES_PRESENCE = ('Rp.presence', _presence_rule('C02', 'a legal zero would be read as missing'))
 
-RULES = [('R3.raman-ase', r3b_raman_ase), ('R1.effects', r1_effects), ('R2.identities', r2_identities), ('R3.sign', r3_sign), RULES_MEMO, RULES_PRESENCE, ('R4.no-reset', r4_no_reset), ('R5.nli-interp', r5_nli_interp), ('R6.own-arrays', r6_own_arrays), ('Rn.arg-roles', rn_arg_roles)]
+RULES = [('R3.raman-ase', r3b_raman_ase), ('R1.effects', r1_effects), ('R2.identities', r2_identities), ('R3.sign', r3_sign), RULES_MEMO, RULES_PRESENCE, ('R4.no-reset', r4_no_reset), ('R5.nli-interp', r5_nli_interp), ('R6.own-arrays', r6_own_arrays), ('Rn.arg-roles', rn_arg_roles), ('R7.no-shallow-copy', r7_arrays_private)]
